@@ -644,6 +644,250 @@ def _collapse_all_shape(fn: ast.FunctionDef, module: ast.Module) -> dict:
                 raises_after_loop=raises, recur_count_consulted=consulted)
 
 
+# ---------------------------------------------------------------------------------------------- cycle repair (round 4)
+def _single_defs(fn: ast.FunctionDef) -> dict[str, ast.Assign]:
+    """Local names bound exactly once in `fn` by `name = expr` (any other binding of the name disqualifies it)."""
+    count: dict[str, int] = {}
+    defs: dict[str, ast.Assign] = {}
+    for n in ast.walk(fn):
+        if isinstance(n, ast.Name) and isinstance(n.ctx, (ast.Store, ast.Del)):
+            count[n.id] = count.get(n.id, 0) + 1
+        if isinstance(n, ast.Assign) and len(n.targets) == 1 and isinstance(n.targets[0], ast.Name):
+            defs[n.targets[0].id] = n
+    for a in fn.args.args + fn.args.kwonlyargs:
+        count[a.arg] = count.get(a.arg, 0) + 1
+    return {k: v for k, v in defs.items() if count.get(k) == 1}
+
+
+def _resolve(e: ast.expr, defs: dict[str, ast.Assign], used: list[ast.Assign]) -> ast.expr:
+    """Follow hoisted locals (`x = inst.filename; ... x in ...`) to the expression they stand for."""
+    seen = 0
+    while isinstance(e, ast.Name) and e.id in defs and seen < 20:
+        used.append(defs[e.id])
+        e = defs[e.id].value
+        seen += 1
+    return e
+
+
+def _membership(test: ast.expr) -> tuple[bool, ast.expr, ast.expr] | None:
+    """`a in b` -> (True, a, b); `a not in b`, `not (a in b)` -> (False, a, b); anything else -> None."""
+    pol = True
+    while isinstance(test, ast.UnaryOp) and isinstance(test.op, ast.Not):
+        pol, test = not pol, test.operand
+    if isinstance(test, ast.Compare) and len(test.ops) == 1 and isinstance(test.ops[0], (ast.In, ast.NotIn)):
+        return (pol if isinstance(test.ops[0], ast.In) else not pol), test.left, test.comparators[0]
+    return None
+
+
+def _is_attr(e: ast.expr, obj: str, attr: str) -> bool:
+    return isinstance(e, ast.Attribute) and e.attr == attr and isinstance(e.value, ast.Name) and e.value.id == obj
+
+
+def _raises_recursion_error(body: list[ast.stmt]) -> bool:
+    if len(body) != 1 or not isinstance(body[0], ast.Raise) or body[0].exc is None:
+        return False
+    exc = body[0].exc
+    return getattr(exc.func if isinstance(exc, ast.Call) else exc, 'id', '') == 'RecursionError'
+
+
+def _mentions_attr(node: ast.AST, attr: str) -> list[ast.Attribute]:
+    return [n for n in ast.walk(node) if isinstance(n, ast.Attribute) and n.attr == attr]
+
+
+def _cycle_repair(itree: ast.Module) -> dict:
+    """The three sites of the ancestry check, recognised by what they compute (hoisted locals, `in`/`not in` with the
+    branches swapped, if-statement vs conditional expression are the same thing); a use of `.parents` or of the hidden
+    attribute that is not one of the recognised sites is not followed: fail closed."""
+    FIELD = 'parents'
+    info: dict = {}
+    call = _find_func(itree, 'collapse_all')
+    c1 = _find_func(itree, 'collapse_one')
+    init = _find_func(itree, '__init__', 'Instance')
+    from_ent = _find_func(itree, 'from_entity', 'Instance')
+
+    # ---- Instance.from_entity: inst.parents = getattr(ent, <ATTR>, ()) ; Instance.__init__: self.parents = ()
+    def empty_tuple(e: ast.expr) -> bool:
+        return (isinstance(e, ast.Tuple) and not e.elts) or (isinstance(e, ast.Call) and getattr(e.func, 'id', '') == 'tuple'
+                                                             and not e.args and not e.keywords)
+
+    def attr_key(e: ast.expr) -> str | None:
+        """The hidden attribute's name: a module constant (by its name) or a string literal."""
+        if isinstance(e, ast.Name):
+            vals = [n.value for n in itree.body if isinstance(n, ast.Assign) and len(n.targets) == 1
+                    and isinstance(n.targets[0], ast.Name) and n.targets[0].id == e.id]
+            if len(vals) == 1 and isinstance(vals[0], ast.Constant) and isinstance(vals[0].value, str):
+                return vals[0].value
+            return None
+        if isinstance(e, ast.Constant) and isinstance(e.value, str):
+            return e.value
+        return None
+
+    ent_param = from_ent.args.args[1].arg if len(from_ent.args.args) > 1 else ''
+    reads = []
+    for n in ast.walk(from_ent):
+        if isinstance(n, ast.Assign) and len(n.targets) == 1 and isinstance(n.targets[0], ast.Attribute) and n.targets[0].attr == FIELD:
+            reads.append(n)
+    key_read = None
+    read_ok = False
+    if len(reads) == 1:
+        v = reads[0].value
+        if isinstance(v, ast.Call) and getattr(v.func, 'id', '') == 'getattr' and len(v.args) == 3 and not v.keywords \
+                and isinstance(v.args[0], ast.Name) and v.args[0].id == ent_param and empty_tuple(v.args[2]):
+            key_read = attr_key(v.args[1])
+            read_ok = key_read is not None
+    init_sets = [n for n in ast.walk(init) if isinstance(n, ast.Assign) and len(n.targets) == 1 and _is_attr(n.targets[0], 'self', FIELD)]
+    init_ok = len(init_sets) == 1 and empty_tuple(init_sets[0].value)
+    # nothing else stores into .parents, nothing else touches the hidden attribute
+    allowed = {id(x) for x in reads + init_sets}
+    other_stores = []
+    for n in ast.walk(itree):
+        if isinstance(n, (ast.Assign, ast.AugAssign, ast.AnnAssign)) and id(n) not in allowed:
+            tgts = n.targets if isinstance(n, ast.Assign) else [n.target]
+            if any(isinstance(t, ast.Attribute) and t.attr == FIELD for t in tgts):
+                other_stores.append(n.lineno)
+    info['parents_read_line'] = reads[0].lineno if reads else None
+    roundtrip = read_ok and init_ok and not other_stores
+
+    # ---- collapse_one: setattr(<entity>, <ATTR>, parents + (filename,) if '$' not in <entity>['file'] else ())
+    inst_param = c1.args.args[1].arg if len(c1.args.args) > 1 else ''
+    loops = [n for n in c1.body if isinstance(n, ast.For) and ast.unparse(n.target) == 'new_ent' and ast.unparse(n.iter) == 'new_ents']
+    if len(loops) != 1:
+        raise TranslateError('collapse_one: the per-entity loop `for new_ent in new_ents` not found')
+    ploop = loops[0]
+    ent_var = 'new_ent'
+    defs1 = _single_defs(c1)
+    writes = [n for n in ast.walk(itree) if isinstance(n, ast.Call) and getattr(n.func, 'id', '') == 'setattr' and len(n.args) == 3
+              and key_read is not None and attr_key(n.args[1]) == key_read]
+    in_loop = {id(x) for x in ast.walk(ploop)}
+    extended = False
+    why = 'no setattr of the hidden attribute in the per-entity loop'
+    if any(id(w) not in in_loop for w in writes):
+        raise TranslateError('instancing.py: the hidden parents attribute is written outside the per-entity loop of collapse_one')
+    # line of the first place where a keyvalue of the new entity is rewritten: the `file` value must be read before it
+    first_store = min([n.lineno for n in ast.walk(ploop) if isinstance(n, ast.Subscript) and isinstance(n.ctx, ast.Store)
+                       and isinstance(n.value, ast.Name) and n.value.id == ent_var] or [10 ** 9])
+    nested_loops = [n for n in ast.walk(ploop) if isinstance(n, (ast.For, ast.While)) and n is not ploop]
+
+    def straight_line(node: ast.AST) -> bool:
+        return node.lineno < first_store and not any(id(node) in {id(x) for x in ast.walk(lp)} for lp in nested_loops)
+
+    def is_parents_plus_file(e: ast.expr, used: list) -> bool:
+        e = _resolve(e, defs1, used)
+        if isinstance(e, ast.BinOp) and isinstance(e.op, ast.Add):
+            l, r = _resolve(e.left, defs1, used), _resolve(e.right, defs1, used)
+            return _is_attr(l, inst_param, FIELD) and isinstance(r, ast.Tuple) and len(r.elts) == 1 \
+                and _is_attr(_resolve(r.elts[0], defs1, used), inst_param, 'filename')
+        if isinstance(e, ast.Tuple) and len(e.elts) == 2 and isinstance(e.elts[0], ast.Starred):
+            return _is_attr(_resolve(e.elts[0].value, defs1, used), inst_param, FIELD) \
+                and _is_attr(_resolve(e.elts[1], defs1, used), inst_param, 'filename')
+        return False
+
+    def raw_file(e: ast.expr, used: list) -> bool:
+        e = _resolve(e, defs1, used)
+        return isinstance(e, ast.Subscript) and isinstance(e.value, ast.Name) and e.value.id == ent_var \
+            and isinstance(e.slice, ast.Constant) and isinstance(e.slice.value, str) and e.slice.value.casefold() == 'file'
+
+    def dollar(e: ast.expr, used: list) -> bool:
+        e = _resolve(e, defs1, used)
+        return isinstance(e, ast.Constant) and e.value == '$'
+
+    # normalise to (test, value if test, value otherwise)
+    cands: list[tuple[ast.expr, ast.expr, ast.expr, ast.AST]] = []
+    if len(writes) == 1 and isinstance(writes[0].args[2], ast.IfExp):
+        w = writes[0]
+        cands.append((w.args[2].test, w.args[2].body, w.args[2].orelse, w))
+    elif len(writes) == 1:
+        used0: list = []
+        v = _resolve(writes[0].args[2], defs1, used0)
+        if isinstance(v, ast.IfExp) and all(straight_line(u) for u in used0):
+            cands.append((v.test, v.body, v.orelse, writes[0]))
+        else:
+            why = 'the value stored is not conditional on the `file` value'
+    elif len(writes) == 2:
+        for st in ast.walk(ploop):
+            if isinstance(st, ast.If) and len(st.body) == 1 and len(st.orelse) == 1 and all(
+                    isinstance(b, ast.Expr) and b.value in writes for b in (st.body[0], st.orelse[0])) \
+                    and st.body[0].value is not st.orelse[0].value:
+                cands.append((st.test, st.body[0].value.args[2], st.orelse[0].value.args[2], st))
+        if not cands:
+            why = 'two setattr sites that are not the two arms of one if statement'
+    elif len(writes) > 2:
+        raise TranslateError('collapse_one: more than two writes of the hidden parents attribute')
+    if cands:
+        test, v_true, v_false, site = cands[0]
+        used: list = []
+        m = _membership(_resolve(test, defs1, used))
+        tgt_ok = all(isinstance(w.args[0], ast.Name) and w.args[0].id == ent_var for w in writes)
+        if m is None:
+            why = f'test `{ast.unparse(test)}` is not a membership test'
+        else:
+            has_dollar, needle, hay = m
+            v_static, v_dynamic = (v_false, v_true) if has_dollar else (v_true, v_false)
+            checks = {'target is the new entity': tgt_ok, "tests for '$'": dollar(needle, used), "in the entity's `file` value": raw_file(hay, used),
+                      'static link: parents + (filename,)': is_parents_plus_file(v_static, used),
+                      'dynamic link: ()': empty_tuple(_resolve(v_dynamic, defs1, used)),
+                      'reads the value before any keyvalue is rewritten': straight_line(site) and all(straight_line(u) for u in used)}
+            extended = all(checks.values())
+            why = 'ok' if extended else 'failed: ' + ', '.join(k for k, v in checks.items() if not v)
+    info['parents_extended_detail'] = why
+
+    # ---- collapse_all: if inst.filename in inst.parents: raise RecursionError  (before collapse_one is reached)
+    defs_all = _single_defs(call)
+    inner = [n for n in ast.walk(call) if isinstance(n, ast.For) and ast.unparse(n.iter) == 'instances' and isinstance(n.target, ast.Name)]
+    check = False
+    why2 = 'collapse_all does not look at .parents'
+    mentions = _mentions_attr(call, FIELD)
+    if mentions:
+        if len(inner) != 1:
+            raise TranslateError('collapse_all: `.parents` is used but the loop over the snapshot was not found')
+        body = inner[0].body
+        var = inner[0].target.id
+        recognised: list[tuple[int, ast.If, bool]] = []      # (index in body, statement, raise is in the orelse branch)
+        for i, st in enumerate(body):
+            if not isinstance(st, ast.If):
+                continue
+            used2: list = []
+            m = _membership(_resolve(st.test, defs_all, used2))
+            if m is None:
+                continue
+            pol, needle, hay = m
+            needle, hay = _resolve(needle, defs_all, used2), _resolve(hay, defs_all, used2)
+            if not (isinstance(needle, ast.Attribute) and isinstance(hay, ast.Attribute) and needle.attr == 'filename' and hay.attr == FIELD
+                    and isinstance(needle.value, ast.Name) and isinstance(hay.value, ast.Name) and needle.value.id == hay.value.id):
+                continue
+            obj = needle.value.id
+            src = defs_all.get(obj)
+            from_entity = src is not None and isinstance(src.value, ast.Call) and ast.unparse(src.value.func).endswith('.from_entity') \
+                and len(src.value.args) == 1 and isinstance(src.value.args[0], ast.Name) and src.value.args[0].id == var
+            raise_branch, other_branch = (st.body, st.orelse) if pol else (st.orelse, st.body)
+            if from_entity and _raises_recursion_error(raise_branch) and all(u in body[:i] for u in used2 + [src]):
+                recognised.append((i, st, not pol))
+        covered = {id(x) for _, st, _ in recognised for x in ast.walk(st.test)}
+        for _, st, _ in recognised:          # hoisted operands of the recognised test
+            used3: list = []
+            m = _membership(_resolve(st.test, defs_all, used3))
+            for side_e in (m[1], m[2]):
+                _resolve(side_e, defs_all, used3)
+            covered |= {id(x) for u in used3 for x in ast.walk(u)}
+        if any(id(a) not in covered for a in mentions):
+            raise TranslateError('collapse_all: `.parents` is used in a way that is not the recognised ancestry check')
+        if len(recognised) != 1:
+            raise TranslateError('collapse_all: more than one ancestry check')
+        i, st, swapped = recognised[0]
+        call_idx = [j for j, s2 in enumerate(body) for n in ast.walk(s2) if isinstance(n, ast.Call) and ast.unparse(n.func) == 'collapse_one']
+        obj = _resolve(_membership(_resolve(st.test, defs_all, []))[1], defs_all, []).value.id
+        same_inst = all(len(n.args) > 1 and isinstance(n.args[1], ast.Name) and n.args[1].id == obj
+                        for s2 in body for n in ast.walk(s2) if isinstance(n, ast.Call) and ast.unparse(n.func) == 'collapse_one')
+        # the instance is bound once (single definition); its filename / parents must not be assigned in collapse_all
+        untouched = not any(isinstance(n, ast.Attribute) and isinstance(n.ctx, (ast.Store, ast.Del)) and n.attr in ('filename', FIELD)
+                            for n in ast.walk(call))
+        before_call = bool(call_idx) and all(j > i or (j == i and swapped) for j in call_idx)
+        check = before_call and same_inst and untouched
+        why2 = 'ok' if check else 'the check is not in front of the collapse_one call of the same instance'
+    info['ancestry_check_detail'] = why2
+    return dict(ancestry_check=check, parents_extended=extended, parents_roundtrip=roundtrip, detail=info)
+
+
 def _template_census(fn: ast.FunctionDef) -> dict:
     """Every use of an object that belongs to the template (file.vmf...) inside collapse_one."""
     tmpl_names = {'file'}
@@ -1342,6 +1586,10 @@ class _Sites:
             return self.wrap([self.sx(v.value, env) for v in e.values if isinstance(v, ast.FormattedValue)])
         if isinstance(e, (ast.Tuple, ast.List, ast.Set)):
             return self.wrap([self.sx(v, env) for v in e.elts])
+        if isinstance(e, ast.IfExp):       # either branch can be the value (like the two arms of an if statement)
+            self.sx(e.test, env)
+            a, b = self.sx(e.body, env), self.sx(e.orelse, env)
+            return a if a == b else ('SJoin', a, b)
         raise TranslateError(f'collapse_one line {getattr(e, "lineno", "?")}: expression {type(e).__name__} not supported in the per-entity loop')
 
     @staticmethod
@@ -2049,7 +2297,10 @@ def translate() -> tuple[str, dict]:
     side['localise_sites'] = loc_sites
     world = [s for s in loc_sites if s['loop'] == 'file.vmf.brushes']
     entb = [s for s in loc_sites if s['loop'].startswith('zip(old_ent.solids')]
-    args_ok = all(s['args'] == ['origin', 'orient'] for s in loc_sites) and len(all_loc) == len(loc_sites)
+    # origin / orient are bound once to inst.pos / inst.orient and never re-bound (checked above): either spelling is the placement
+    def placement_args(args: list[str]) -> bool:
+        return [binds.get(a_, a_) if a_ in ('origin', 'orient') else a_ for a_ in args] == ['inst.pos', 'inst.orient']
+    args_ok = all(placement_args(s['args']) for s in loc_sites) and len(all_loc) == len(loc_sites)
     E.lines.append(f'Definition g_collapse_world_brush_localise_sites : nat := {len(world)}.')
     E.lines.append(f'Definition g_collapse_ent_brush_localise_sites : nat := {len(entb)}.')
     E.lines.append(f'Definition g_collapse_localise_args_are_instance_placement : bool := {"true" if args_ok else "false"}.')
@@ -2073,12 +2324,18 @@ def translate() -> tuple[str, dict]:
                 org_expr = st.value
         if isinstance(n, ast.AugAssign) and ast.unparse(n.target) == 'angles' and isinstance(n.op, ast.MatMult):
             ang_rot = n
+        # the same rotation written as a re-binding: angles = angles @ orient  (AngleBase.__matmul__, same matrix: g_angle_matmul)
+        if isinstance(n, ast.Assign) and len(n.targets) == 1 and ast.unparse(n.targets[0]) == 'angles' and isinstance(n.value, ast.BinOp) \
+                and isinstance(n.value.op, ast.MatMult) and ast.unparse(n.value.left) == 'angles':
+            ang_rot = n
     if org_expr is None:
         raise TranslateError("collapse_one: store to new_ent['origin'] not found")
-    if ang_rot is None or ast.unparse(ang_rot.value) != 'orient':
+    ang_arg = None if ang_rot is None else ang_rot.value if isinstance(ang_rot, ast.AugAssign) else ang_rot.value.right
+    if ang_arg is None or binds.get(ast.unparse(ang_arg), ast.unparse(ang_arg)) != 'inst.orient':
         raise TranslateError('collapse_one: `angles @= orient` not found')
     J, _ = site_interp()
-    r = J.eval(org_expr, {'value': SStr('value'), 'orient': sym_mat('m'), 'origin': sym_vec('o')})
+    o_, m_ = sym_vec('o'), sym_mat('m')
+    r = J.eval(org_expr, {'value': SStr('value'), 'orient': m_, 'origin': o_, 'inst': SObj('Instance', {'pos': o_, 'orient': m_})})
     E.define('g_collapse_ent_origin', [('p', V), ('o', V), ('m', Mx)], out_vec(r),
              "collapse_one: new_ent['origin'] as a function of the old origin p")
 
@@ -2143,6 +2400,158 @@ def translate() -> tuple[str, dict]:
     names, node = want['ANGLES']
     if ast.unparse(node.body[0]) != 'return str(Angle.from_str(value) @ self.orient)':
         raise TranslateError('fixup_key: ANGLES branch not recognised')
+    # --- census of every use of the placement (round 4): SM/C17Whole.v applies the placement to a placement-independent content,
+    # item by item, through the generated arithmetic; that is the code only if the placement is read nowhere else.  Recognised
+    # sites = the expressions executed symbolically above; every other load of origin / orient / inst.pos / inst.orient in
+    # collapse_one, of self.pos / self.orient in a method of Instance, every store to them outside __init__ and every use of
+    # the bare `inst` object other than as the receiver of an attribute access is counted as a use outside the arithmetic.
+    ang_branch_ret = node.body[0].value if isinstance(node.body[0], ast.Return) else None
+    bind_stmts = [s_ for s_ in c1.body if isinstance(s_, ast.Assign) and isinstance(s_.targets[0], ast.Name)
+                  and s_.targets[0].id in ('origin', 'orient')]
+    recognised: list[ast.AST] = [c_ for c_ in all_loc if placement_args([ast.unparse(a_) for a_ in c_.args]) and not c_.keywords]
+    recognised += [org_expr, ang_rot, *bind_stmts, want['VEC'][1].body[0].value, want['EXT_VEC_DIRECTION'][1].body[0].value, *axis_vals]
+    if ang_branch_ret is not None:
+        recognised.append(ang_branch_ret)
+    inside = {id(x) for nd in recognised for x in ast.walk(nd)}
+    receivers = {id(n.value) for f_ in [c1] for n in ast.walk(f_) if isinstance(n, ast.Attribute)}
+    uses_in: list[str] = []
+    uses_out: list[str] = []
+
+    def use(n: ast.AST, what: str) -> None:
+        (uses_in if id(n) in inside else uses_out).append(f'{what}@{getattr(n, "lineno", 0)}')
+    for n in ast.walk(c1):
+        if isinstance(n, ast.Name) and n.id in ('origin', 'orient'):
+            if isinstance(n.ctx, ast.Load) or id(n) not in inside:
+                use(n, n.id)
+        elif isinstance(n, ast.Attribute) and isinstance(n.value, ast.Name) and n.value.id == 'inst' and n.attr in ('pos', 'orient'):
+            if isinstance(n.ctx, ast.Load):
+                use(n, 'inst.' + n.attr)
+            else:
+                uses_out.append(f'store inst.{n.attr}@{n.lineno}')
+        elif isinstance(n, ast.Name) and n.id == 'inst' and id(n) not in receivers:
+            uses_out.append(f'inst passed on@{n.lineno}')
+    inst_cls = next((n for n in itree.body if isinstance(n, ast.ClassDef) and n.name == 'Instance'), None)
+    if inst_cls is None:
+        raise TranslateError('class Instance not found')
+    for meth in [m_ for m_ in inst_cls.body if isinstance(m_, (ast.FunctionDef, ast.AsyncFunctionDef)) and m_.name != '__init__']:
+        recv_m = {id(n.value) for n in ast.walk(meth) if isinstance(n, ast.Attribute)}
+        self_name = meth.args.args[0].arg if meth.args.args else 'self'
+        for n in ast.walk(meth):
+            if isinstance(n, ast.Attribute) and isinstance(n.value, ast.Name) and n.value.id in (self_name, 'inst') and n.attr in ('pos', 'orient'):
+                if isinstance(n.ctx, ast.Load):
+                    use(n, f'{meth.name}: {n.value.id}.{n.attr}')
+                elif meth.name != 'from_entity':
+                    uses_out.append(f'{meth.name}: store {n.value.id}.{n.attr}@{n.lineno}')
+            elif isinstance(n, ast.Name) and n.id == self_name and self_name == 'self' and id(n) not in recv_m and isinstance(n.ctx, ast.Load):
+                uses_out.append(f'{meth.name}: self passed on@{n.lineno}')
+    side['placement_uses'] = {'at_arithmetic_sites': uses_in, 'elsewhere': uses_out}
+    E.lines.append(f'Definition g_placement_uses_at_arithmetic_sites : nat := {len(uses_in)}.')
+    E.lines.append(f'Definition g_placement_uses_elsewhere : nat := {len(uses_out)}.')
+
+    # --- census of the engine database objects (round 4): EntityDef.engine_def() hands out objects of a process-wide cache of
+    # srctools.fgd (state outside instancing.py / vmf.py); collapse_one must only READ them: a local bound from engine_cache[...]
+    # / EntityDef.engine_def(...) / EntityDef(...) (and, transitively, from `<such>.kv[...]`) may be the base of an attribute or
+    # subscript load, the value stored into the caller's engine_cache, or an operand of a comparison - nothing else.
+    def _db_source(e: ast.expr, db: set[str]) -> bool:
+        if isinstance(e, ast.Subscript) and isinstance(e.value, ast.Name) and e.value.id == 'engine_cache':
+            return True
+        if isinstance(e, ast.Call) and ast.unparse(e.func) in ('EntityDef.engine_def', 'EntityDef'):
+            return True
+        base = e                      # any chain of attribute / subscript loads below such a local: ent_type.kv, ent_type.kv[k], kvs[k]
+        while isinstance(base, (ast.Attribute, ast.Subscript)):
+            base = base.value
+        if base is not e and isinstance(base, ast.Name) and base.id in db:
+            return True
+        return False
+    db_names: set[str] = set()
+    grown = True
+    while grown:
+        grown = False
+        for n in ast.walk(c1):
+            if isinstance(n, ast.Assign) and len(n.targets) == 1 and isinstance(n.targets[0], ast.Name) and _db_source(n.value, db_names) \
+                    and n.targets[0].id not in db_names:
+                db_names.add(n.targets[0].id)
+                grown = True
+    db_reads: list[str] = []
+    db_other: list[str] = []
+    parent: dict[int, ast.AST] = {id(ch): nd for nd in ast.walk(c1) for ch in ast.iter_child_nodes(nd)}
+    for n in ast.walk(c1):
+        if isinstance(n, ast.Name) and n.id in db_names:
+            par = parent.get(id(n))
+            where = f'{n.id}@{n.lineno}'
+            if isinstance(n.ctx, ast.Store):
+                if not (isinstance(par, ast.Assign) and _db_source(par.value, db_names)):
+                    db_other.append('re-bound from elsewhere: ' + where)
+            elif isinstance(par, (ast.Attribute, ast.Subscript)) and par.value is n and isinstance(par.ctx, ast.Load):
+                top: ast.AST = par            # climb the chain of loads x.a[b].c ...: a call of a method anywhere on it may mutate
+                gp = parent.get(id(top))
+                while isinstance(gp, (ast.Attribute, ast.Subscript)) and gp.value is top and isinstance(gp.ctx, ast.Load):
+                    top, gp = gp, parent.get(id(gp))
+                if isinstance(gp, ast.Call) and gp.func is top:
+                    db_other.append('method call: ' + where)
+                elif isinstance(gp, ast.Call) and ast.unparse(gp.func) not in ('inst.fixup_key',):
+                    db_other.append('passed to a call: ' + where)
+                else:
+                    db_reads.append(where)
+            elif isinstance(par, ast.Assign) and par.value is n and len(par.targets) == 1 and isinstance(par.targets[0], ast.Subscript) \
+                    and isinstance(par.targets[0].value, ast.Name) and par.targets[0].value.id == 'engine_cache':
+                db_reads.append('kept in the caller\'s engine_cache: ' + where)
+            elif isinstance(par, ast.Compare):
+                db_reads.append(where)
+            else:
+                db_other.append(f'{type(par).__name__}: {where}')
+    # stores / deletes through such an object: ent_type.kv[...] = ..., kv.type = ..., del ent_type.kv[...]
+    for n in ast.walk(c1):
+        if isinstance(n, (ast.Attribute, ast.Subscript)) and isinstance(n.ctx, (ast.Store, ast.Del)):
+            base = n
+            while isinstance(base, (ast.Attribute, ast.Subscript)):
+                base = base.value
+            if isinstance(base, ast.Name) and base.id in db_names:
+                db_other.append(f'store through {base.id}@{n.lineno}')
+    side['engine_db_objects'] = {'locals': sorted(db_names), 'reads': db_reads, 'other_uses': db_other}
+    E.lines.append(f'Definition g_collapse_engine_db_reads : nat := {len(db_reads)}.')
+    E.lines.append(f'Definition g_collapse_engine_db_other_uses : nat := {len(db_other)}.')
+
+    # --- Instance.from_entity (round 4): how collapse_all turns a func_instance entity into the Instance it collapses - which
+    # keyvalue feeds which constructor parameter.  Read by meaning: the `cls(...)` call is matched against the parameter list of
+    # __init__ (positional or keyword), single-assignment locals are inlined.
+    fe = _find_func(itree, 'from_entity', 'Instance')
+    init = _find_func(itree, '__init__', 'Instance')
+    fe_locals = _single_assigned_locals(fe)
+    params = [a_.arg for a_ in init.args.args[1:]]
+    ctor = [n for n in ast.walk(fe) if isinstance(n, ast.Call) and isinstance(n.func, ast.Name) and n.func.id == fe.args.args[0].arg]
+    if len(ctor) != 1:
+        raise TranslateError('Instance.from_entity: exactly one cls(...) call expected')
+    bound: dict[str, str] = {}
+    for k_, a_ in enumerate(ctor[0].args):
+        if isinstance(a_, ast.Starred) or k_ >= len(params):
+            raise TranslateError('Instance.from_entity: cls(...) arguments not understood')
+        bound[params[k_]] = ast.unparse(fe_locals.get(a_.id, a_) if isinstance(a_, ast.Name) else a_)
+    for kw_ in ctor[0].keywords:
+        if kw_.arg is None or kw_.arg not in params:
+            raise TranslateError('Instance.from_entity: cls(...) keyword not understood')
+        bound[kw_.arg] = ast.unparse(fe_locals.get(kw_.value.id, kw_.value) if isinstance(kw_.value, ast.Name) else kw_.value)
+    ent_arg = fe.args.args[1].arg
+    want_args = {'name': f"{ent_arg}['targetname']", 'filename': f"{ent_arg}['file']", 'pos': f"Vec.from_str({ent_arg}['origin'])",
+                 'orient': f"Matrix.from_angstr({ent_arg}['angles'])", 'outputs': f'{ent_arg}.outputs', 'fixup': f'{ent_arg}.fixup.copy_values()'}
+    args_as_wanted = all(bound.get(k_) == v_ for k_, v_ in want_args.items())
+    # the style: FixupStyle(int(ent['fixup_style', '0'])) inside try / except ValueError -> FixupStyle.PREFIX
+    style_try = [n for n in ast.walk(fe) if isinstance(n, ast.Try)]
+    style_ok = False
+    if len(style_try) == 1 and len(style_try[0].body) == 1 and isinstance(style_try[0].body[0], ast.Assign):
+        tgt = ast.unparse(style_try[0].body[0].targets[0])
+        val = ast.unparse(style_try[0].body[0].value)
+        hs = style_try[0].handlers
+        fall = [st_ for h_ in hs for st_ in h_.body if isinstance(st_, ast.Assign) and ast.unparse(st_.targets[0]) == tgt]
+        style_ok = val == f"FixupStyle(int({ent_arg}['fixup_style', '0']))" and len(hs) == 1 and ast.unparse(hs[0].type) == 'ValueError' \
+            and len(fall) == 1 and ast.unparse(fall[0].value) == 'FixupStyle.PREFIX' and bound.get('fixup_type') == tgt
+    init_stores = {ast.unparse(st_.targets[0]): ast.unparse(st_.value) for st_ in init.body if isinstance(st_, ast.Assign)}
+    init_ok = all(init_stores.get(f'self.{k_}') == v_ for k_, v_ in (('name', 'name'), ('filename', 'filename'), ('pos', 'pos'), ('orient', 'orient'),
+                                                                     ('fixup_type', 'fixup_type'), ('fixup', 'EntityFixup(fixup)'), ('outputs', 'list(outputs)')))
+    side['from_entity'] = {'constructor_arguments': bound, 'style_branch_ok': style_ok, 'init_stores_ok': init_ok}
+    E.lines.append(f'Definition g_from_entity_reads_instance_keyvalues : bool := {"true" if args_as_wanted and init_ok else "false"}.')
+    E.lines.append(f'Definition g_from_entity_style_default_prefix : bool := {"true" if style_ok else "false"}.')
+
     # name-typed keyvalues (type.is_ent_name, TARG_DEST_CLASS when not a classname): the value goes through fixup_name, whole
     name_br = [nd for nms, nd in branches if '<is_ent_name>' in nms]
     cls_br = [nd for nms, nd in branches if 'TARG_DEST_CLASS' in nms]
@@ -2217,6 +2626,13 @@ def translate() -> tuple[str, dict]:
     for k, val in shape.items():
         if isinstance(val, bool):
             E.lines.append(f'Definition g_collapse_all_{k} : bool := {"true" if val else "false"}.')
+
+    # round 4: the ancestry check that stops instance cycles (SM/C17Rounds.v loop2)
+    cyc = _cycle_repair(itree)
+    side['cycle_repair'] = cyc
+    E.lines.append(f'Definition g_collapse_all_ancestry_check : bool := {cb_(cyc["ancestry_check"])}.')
+    E.lines.append(f'Definition g_collapse_one_parents_extended : bool := {cb_(cyc["parents_extended"])}.')
+    E.lines.append(f'Definition g_instance_parents_roundtrip : bool := {cb_(cyc["parents_roundtrip"])}.')
 
     # template census
     cen = _template_census(c1)
